@@ -668,6 +668,19 @@ def run_model(cases, res):
 # ---------------------------------------------------------------------------------------------- driver
 def histories(rng, nh, nops, res, stats, deadline=None, stop_on_violation=False):
     cases = []
+    # fixed history: a two-digit number of harmonics (names rc(10), rc(11), ... appear), resized up and down again
+    try:
+        cfg0 = dict(rc=[1.0, 0.045], zs=[0.0, -0.045], rs=[0.0, 0.002], zc=[0.0, 0.003], nfp=3, etabar=-0.9, order='r1', nphi=15, sigma0=0.0, B0=1.0, I2=0.0, sG=1, spsi=1)
+        if admissible(*build(ctor_kwargs(cfg0))):
+            quiet()
+            viol, rec, q, done = run_history(cfg0, [['change_nfourier', 12], ['get_dofs'], ['calculate'], ['change_nfourier', 11], ['change_nfourier', 3]], None, 0, stats)
+            if not viol:
+                viol += check_names(q, cfg0, done, stats)
+                viol += check_setget(q, cfg0, done, stats)
+            res['configs'] += 1; res['violations'] += viol
+            res['distribution']['fixed:two-digit-nfourier'] = 1
+    except Exception:
+        pass
     for i in range(nh):
         if deadline and time.time() > deadline:
             break
